@@ -649,3 +649,63 @@ class RuleProxy:
 
     def fixture(self, rule, *a, **k):
         return self._chk.fixture(self._r(rule), *a, **k)
+
+
+def observational_attrs(repo) -> Set[str]:
+    """See effects.observational_attrs_of: attribute names of the package that nothing reads except to report them."""
+    cached = getattr(repo, "_observational_attrs", None)
+    if cached is None:
+        from ..effects import observational_attrs_of
+        cached = observational_attrs_of([m.tree for m in repo.modules.values()])
+        repo._observational_attrs = cached
+    return cached
+
+
+_OBS_PURE_CALLS = {"time.time", "time.monotonic", "time.perf_counter", "len", "max", "min", "int", "float", "bytes", "str", "bool", "abs", "sum", "tuple", "round"}
+
+
+_OBS_PURE_METHODS = {"qsize", "empty", "full", "count", "keys", "values", "items", "copy", "bit_length", "total_seconds", "hex"}
+
+
+def is_observational_stmt(repo, st: ast.stmt) -> bool:
+    """A statement that only reports: a logging call, or a store / in-place update of attributes of self that nothing in the package
+    reads (observational_attrs) with a value built from pure operations."""
+    if isinstance(st, ast.Expr) and isinstance(st.value, ast.Call) and (dotted(st.value.func) or "").split(".")[0] in ("logger", "log", "logging"):
+        return True
+    if isinstance(st, (ast.Assign, ast.AugAssign, ast.AnnAssign)):
+        tg = st.targets if isinstance(st, ast.Assign) else [st.target]
+        obs = observational_attrs(repo)
+        if not all(isinstance(t, ast.Attribute) and isinstance(t.value, ast.Name) and t.value.id == "self" and t.attr in obs for t in tg):
+            return False
+        v = st.value
+        if v is None:
+            return True
+        return all((dotted(c.func) or "") in _OBS_PURE_CALLS or (isinstance(c.func, ast.Attribute) and c.func.attr in _OBS_PURE_METHODS) for c in ast.walk(v) if isinstance(c, ast.Call)) \
+            and not any(isinstance(x, (ast.Yield, ast.YieldFrom, ast.Await, ast.NamedExpr, ast.Lambda)) for x in ast.walk(v))
+    return False
+
+
+def only_rejects(stmts, cls=None, depth: int = 0) -> bool:
+    """A block that changes nothing and either falls through or raises: pass, logging, raise, ifs/asserts made of those, and calls
+    of methods of the same class whose bodies are such blocks (argument validation moved into a helper)."""
+    for st in stmts:
+        if isinstance(st, (ast.Pass, ast.Raise, ast.Assert)):
+            continue
+        if isinstance(st, ast.Expr) and isinstance(st.value, ast.Constant):
+            continue
+        if isinstance(st, ast.Expr) and isinstance(st.value, ast.Call):
+            d = dotted(st.value.func) or ""
+            if d.split(".")[0] in ("logger", "log", "logging", "warnings"):
+                continue
+            if cls is not None and depth < 2 and d.startswith("self.") and d.count(".") == 1 and d[5:] in cls.methods \
+                    and only_rejects(cls.methods[d[5:]].node.body, cls, depth + 1):
+                continue
+            return False
+        if isinstance(st, ast.If):
+            if any(isinstance(x, (ast.NamedExpr, ast.Await, ast.Yield)) for x in ast.walk(st.test)):
+                return False
+            if only_rejects(st.body, cls, depth) and only_rejects(st.orelse, cls, depth):
+                continue
+            return False
+        return False
+    return True
